@@ -72,3 +72,13 @@ Definition flat_decode_scoped (t : ty) (c : ctree) (delivered : list byte) (scop
   : res (val * ctree) :=
   let '(st, d) := new_reader delivered scope in
   do r <- flat_dec t c st d; let '(v, c', _, _) := r in OK (v, c').
+
+(* BoolView.BackingFromBase(base, i) / BoolMeta.SubViewFromBacking(root, i): the byte-per-bool
+   packing helpers (exported; the library's own series do not use them, bool not being a
+   BasicTypeDef).  None = nil. *)
+Definition bool_backing_from_base (c : chunk) (i : N) (b : bool) : option chunk :=
+  if 32 <=? i then None else Some (list_set c (nat_of i) (byte_of_N (if b then 1 else 0))).
+Definition bool_subview (c : chunk) (i : N) : option bool :=
+  if 32 <=? i then None else
+  let x := N_of_byte (nth (nat_of i) c b0) in
+  if 1 <? x then None else Some (x =? 1).
